@@ -19,6 +19,7 @@ def run(ctx):
     from kio.serial._implicit_defaults import get_tagged_field_default
     from kio.serial._introspect import classify_field, get_field_tag, is_optional
 
+    codec.snapshot_serial_state()
     cl = codec.Classes()
     cl.check_driver()
     fails, disagreements = [], []
@@ -72,8 +73,7 @@ def run(ctx):
     import random
     import sys
     import threading
-    from kio.serial import _parse, _serialize
-    _parse.entity_reader.cache_clear(); _serialize.entity_writer.cache_clear()
+    codec.reset_serial_state()
     errs = []
     def worker(k):
         order = list(range(len(cl)))
